@@ -706,14 +706,20 @@ func (g *gen) sprinkleErrors() {
 // not LALR(1): the classic ambiguities plus conflicts that involve the accept
 // action. lox must reject these with a diagnostic (C12); they are never used
 // as simulated parsers.
-func GenerateConflicting(seed uint64) *Spec {
+func GenerateConflicting(seed uint64) *Spec { return GenerateConflictingKind(seed, -1) }
+
+// GenerateConflictingKind forces one of the conflict shapes (0-7); -1 = random.
+func GenerateConflictingKind(seed uint64, kind int) *Spec {
 	g := &gen{r: core.NewRand(seed), s: &Spec{}}
 	g.s.Pkg = "main"
 	g.simpleLexer(true)
 	s := g.s
 	s.Family = "conflicting"
 	t := func(i int) *Term { return &Term{Kind: KTok, Name: g.toks[i%len(g.toks)]} }
-	switch g.pick(8) {
+	if kind < 0 {
+		kind = g.pick(8)
+	}
+	switch kind {
 	case 0: // start rule reachable from itself through a unit production: accept/reduce
 		s.Rules = []*Rule{{Name: "list", Prods: []*Prod{{Terms: []*Term{rref("list")}}, {Terms: []*Term{rref("list"), t(0)}}, {Terms: []*Term{t(0)}}}}}
 	case 1:
@@ -722,8 +728,15 @@ func GenerateConflicting(seed uint64) *Spec {
 		s.Rules = []*Rule{{Name: "e", Prods: []*Prod{{Terms: []*Term{rref("e"), t(0), rref("e")}}, {Terms: []*Term{rref("e"), t(1), rref("e")}}, {Terms: []*Term{t(2)}}}}}
 	case 3: // dangling else
 		s.Rules = []*Rule{{Name: "st", Prods: []*Prod{{Terms: []*Term{t(0), rref("st")}}, {Terms: []*Term{t(0), rref("st"), t(1), rref("st")}}, {Terms: []*Term{t(2)}}}}}
-	case 4: // reduce/reduce
+	case 4: // reduce/reduce, between two or three differently named rules, in one or two states
 		s.Rules = []*Rule{{Name: "s", Prods: []*Prod{{Terms: []*Term{rref("a")}}, {Terms: []*Term{rref("b")}}}}, {Name: "a", Prods: []*Prod{{Terms: []*Term{t(0)}}}}, {Name: "b", Prods: []*Prod{{Terms: []*Term{t(0)}}}}}
+		if g.chance(60) {
+			s.Rules[0].Prods = append(s.Rules[0].Prods, &Prod{Terms: []*Term{rref("c")}})
+			s.Rules = append(s.Rules, &Rule{Name: "c", Prods: []*Prod{{Terms: []*Term{t(0)}}}})
+		}
+		if g.chance(60) {
+			s.Rules[0].Prods = append(s.Rules[0].Prods, &Prod{Terms: []*Term{t(1), rref("a"), t(2)}}, &Prod{Terms: []*Term{t(1), rref("b"), t(2)}})
+		}
 	case 5: // nullable ambiguity
 		s.Rules = []*Rule{{Name: "s", Prods: []*Prod{{Terms: []*Term{rrefc("a", Star), rrefc("a", Star)}}}}, {Name: "a", Prods: []*Prod{{Terms: []*Term{t(0)}}, {}}}}
 	case 6: // start rule derives itself with @error around
